@@ -420,10 +420,19 @@ func (m *tableMon) memberAfter(kind string, before, after *memberSnap, atomic bo
 			}
 		}
 		if gone {
+			m.ledgerOff = "a refused batch update had already removed players (their chips left with them)"
 			c.Viol("C03", "C03.failed_op_left_trace", map[string]any{"op": kind, "part": "table", "leaves_applied_joins_refused": true}, "%s returned %v but the players %v named in its leave list have been removed", kind, err, leaves)
 		}
 	}
 	if err != nil {
+		// a refused departure request no longer explains a later absence of the players it named
+		defer func() {
+			for _, id := range leaves {
+				if m.leaveNamed[id] > 0 {
+					m.leaveNamed[id]--
+				}
+			}
+		}()
 		if atomic {
 			c.Judged("C03.member_op")
 			if after.table != before.table {
@@ -436,6 +445,9 @@ func (m *tableMon) memberAfter(kind string, before, after *memberSnap, atomic bo
 						}
 					}
 					facts["leaves_applied_joins_refused"] = gone
+					if gone {
+						m.ledgerOff = "a refused batch update had already removed players (their chips left with them)"
+					}
 				}
 				c.Viol("C03", "C03.failed_op_left_trace", facts, "%s returned %v but the table changed: %s", kind, err, firstDiff(before.table, after.table))
 			} else if after.sm != before.sm {
